@@ -57,7 +57,7 @@ func H_C13_writer() {
 		e = &eventlogger.Event{Type: "t", Formatted: map[string][]byte{}}
 		n = symLen(0, verifParam("F"))
 		for i := 0; i < n; i++ {
-			ks[i], vs[i] = nondetString(), nondetString()
+			ks[i], vs[i] = nondetString(), nondetText()
 			for j := 0; j < i; j++ {
 				verifAssume(ks[i] != ks[j])
 			}
